@@ -855,7 +855,19 @@ class ActionKinds:
                 el = it.elem
                 if 'dict' in it.kinds and it.known:
                     el = vk('str')
-                self.bind(s.target, el or vk(UNK), st)
+                c_ = s.iter
+                if isinstance(c_, ast.Call) and isinstance(c_.func, ast.Name) and c_.func.id in ('enumerate', 'zip') and isinstance(s.target, ast.Tuple) \
+                        and not c_.keywords and all(not isinstance(a_, ast.Starred) for a_ in c_.args):
+                    # `for i, x in enumerate(xs)` / `for a, b in zip(xs, ys)`: the components are the elements of the arguments
+                    srcs = [self.ev(a_, st, prod, pvar, sink) for a_ in c_.args]
+                    comps = ([vk('int')] + [srcs[0].elem or vk(UNK)]) if c_.func.id == 'enumerate' and len(srcs) == 1 else [x_.elem or vk(UNK) for x_ in srcs]
+                    if len(comps) == len(s.target.elts):
+                        for t_, v_ in zip(s.target.elts, comps):
+                            self.bind(t_, v_, st)
+                        el = None
+                        c_ = 'bound'
+                if c_ != 'bound':
+                    self.bind(s.target, el or vk(UNK), st)
             elif isinstance(s, (ast.If, ast.While)):
                 self.ev(s.test, st, prod, pvar, sink)
             elif isinstance(s, ast.Assert):
